@@ -58,6 +58,7 @@ def the_bus():
 @implementer(A.IBusAuthenticationMechanism)
 class ScriptMech:
     script = []          # class-level: outcomes consumed in order by successive step() calls
+    refusals = 0
     log = []
 
     def getMechanismName(self):
@@ -76,7 +77,10 @@ class ScriptMech:
             return ('OK', None)
         if o == 'CONTINUE':
             return ('CONTINUE', b'challenge')
-        return ('REJECTED', None)
+        # the interface documents 'REJECT' (the EXTERNAL mechanism says that), the cookie mechanism says 'REJECTED':
+        # a mechanism may use either
+        ScriptMech.refusals += 1
+        return ('REJECT' if ScriptMech.refusals % 2 else 'REJECTED', None)
 
     def getUserName(self):
         return 'scripted'
